@@ -69,6 +69,8 @@ THEOREMS = [
     "PV.C18.C18_mpdClosed_scale",
     "PV.C18.C18_mpdClosed_collinear",
     "PV.C18.C18_mpdClosed_bounds",
+    "PV.C18.C18_svd_fact_minor",
+    "PV.C18.C18_mpd_svd_fact_closed",
     "PV.C18.C18_mpd_den_pos",
     "PV.C18.C18_mpd_some",
     "PV.C18.C18_mpd_none_iff",
@@ -100,7 +102,9 @@ RULE = (
 EXTRA_TRUSTED = [
     "np.linalg.eigvals on the 2x2 covariance returns the roots of its characteristic polynomial (= sum trace, product determinant: "
     "C18_eig_contract_iff_charpoly; discharged by the closed form Sym2.eigvals, which is compared with LAPACK on every case)",
-    "np.linalg.svd: V[:,1] is an eigenvector of the 2x2 Gram matrix of [Re, Im] for its smaller eigenvalue (discharged by the closed form "
+    "np.linalg.svd returns a singular value decomposition (A = U S V^T, orthonormal factors, s0 >= s1 >= 0: stream svd[fact] checks it "
+    "on every case); from it V[:,1] is an eigenvector of the 2x2 Gram matrix of [Re, Im] for its smaller eigenvalue "
+    "(C18_svd_fact_minor) (discharged by the closed form "
     "Sym2.minorDir - C18_minorDir_svd, C18_mpd_svd_closed - which is compared with LAPACK and, through mpdClosed, with gen.MPD on every "
     "case without an exact/near tie of the singular values)",
     "np.arccos / np.sqrt / np.abs as the real functions on [0,1] resp. [0,inf); Lean Float (C libm) for the float run of mpd",
@@ -463,8 +467,15 @@ def _corr_mpd_closed(ctx, gen, g):
     phi, _ = gen_shape(ctx, g, n, kind)
     if ctx.rng.random() < 0.04:
         kind, phi = "zero", np.zeros(n, dtype=complex)
-    _, s, VT = np.linalg.svd(np.c_[phi.real, phi.imag])
+    A = np.c_[phi.real, phi.imag]
+    U, s, VT = np.linalg.svd(A)
     V = VT.T
+    # the hypotheses of C18_svd_fact_minor (SvdFact): A = U[:, :2] diag(s) V^T, orthonormal factors, s0 >= s1 >= 0
+    sc = max(float(s[0]), 1e-300)
+    fact = max(float(np.max(np.abs(U[:, :2] * s @ VT - A))) / sc, float(np.max(np.abs(U[:, :2].T @ U[:, :2] - np.eye(2)))),
+               float(np.max(np.abs(VT @ VT.T - np.eye(2)))))
+    margin(ctx, "corr_svd_fact", fact, 1e-12)
+    ctx.corr("svd[fact]", fact <= 1e-12 and s[0] >= s[1] >= 0, {"phi": Cvec(phi)}, None, fact, (kind, n))
     with np.errstate(all="ignore"):
         val = float(gen.MPD(phi))
     pb = [[bits(z.real), bits(z.imag)] for z in phi]
